@@ -27,6 +27,12 @@ Decided:
          passes its own (error text, file list) parameters in that order, and the list restart_with_reloader hands to
          the error hook is filled *in place* from the child's report -- no nested function or helper rebinds it as a
          local of its own.
+  R20.f  the exception shown is the one on the *last* line: the line whose ``partition(':')`` supplies the type and
+         message handed to the parsed object is followed back to the iteration / index / ``next`` / ``pop`` that
+         produced it, and that search has to run from the end of the text (``reversed``, ``[::-1]``, a descending index,
+         a negative position, ``pop()``; a top-down loop only when it keeps the last hit) -- a chained traceback has
+         earlier 'Type: message' lines further up.  Orders are an abstract value (top-down / bottom-up / unknown);
+         nothing is evaluated; unknown is an analysis error.
 Declined: "answers 200 for every text" over non-text inputs; which traceback texts the parser recognises.
 
 The constructs are located by role: the Application(...) call create_app returns, its routes / resources /
@@ -1634,64 +1640,461 @@ def _template_escapes(rep, fs):
               'template reads %r which %s does not supply' % (missing, epf.qualname), flaw, epf.node)
 
 
-def _partition_side(repo, fi, expr, depth=0):
-    """Index (0 / 1 / 2) of the ``<line>.partition(<sep>)`` result a name holds on every binding, else None.  Followed
-    through copies, ``x[i]`` of a partition result, and functions of the module that return (a tuple of) such names."""
-    if depth > 6:
+def _is_decorated(g, what):
+    return [norm(d) for d in g.node.decorator_list] == [what]
+
+
+def _callee_of(repo, fi, c):
+    """(FuncInfo, number of leading parameters the call does not spell) of the function of the analysed module a call
+    runs: a module-level function called by plain name, or a method of a class of the module called on the
+    class / instance the calling method itself received (``cls.m(..)``, ``self.m(..)``) or on the class by name
+    (``Parser.m(..)``).  None when it cannot be told."""
+    if not isinstance(c, ast.Call):
         return None
+    f = c.func
+    if isinstance(f, ast.Name):
+        if f.id in _all_params(fi) or assigned_value(fi.node, f.id):
+            return None
+        g = _module_callee(repo, fi, c)
+        if g is None or not isinstance(g.node, ast.FunctionDef) or g.node.decorator_list:
+            return None
+        return g, 0
+    if not (isinstance(f, ast.Attribute) and isinstance(f.value, ast.Name)):
+        return None
+    recv = f.value.id
+    if assigned_value(fi.node, recv):
+        return None
+    ci, via_instance = None, False
+    if fi.cls is not None and fi.params() and recv == fi.params()[0] and not _is_decorated(fi, 'staticmethod'):
+        ci, via_instance = fi.cls, not _is_decorated(fi, 'classmethod')
+    elif recv not in _all_params(fi):
+        ci = fi.mod.classes.get(recv)
+    if ci is None:
+        return None
+    try:
+        if repo.subclasses(ci):
+            return None            # the method may be overridden
+    except Exception:
+        return None
+    g = ci.methods.get(f.attr)
+    if g is None or not isinstance(g.node, ast.FunctionDef):
+        return None
+    if _is_decorated(g, 'staticmethod'):
+        return g, 0
+    if _is_decorated(g, 'classmethod'):
+        return g, 1
+    if not g.node.decorator_list:
+        return g, (1 if via_instance else 0)
+    return None
+
+
+def _call_site_args(repo, g, pname):
+    """[(calling function, argument expression)] for parameter ``pname`` of ``g`` over every call of ``g`` in its
+    module; None when the function is also used as a value, is never called, or an argument cannot be matched."""
+    mod = g.mod
+    for n in ast.walk(mod.tree):
+        if ((isinstance(n, ast.Name) and n.id == g.name) or (isinstance(n, ast.Attribute) and n.attr == g.name)) and \
+                isinstance(n.ctx, ast.Load):
+            par = mod.parents.get(n)
+            if not (isinstance(par, ast.Call) and par.func is n):
+                return None
+    ps = g.params()
+    if pname not in ps:
+        return None
+    out = []
+    for caller in list(mod.functions.values()):
+        for c in walk_body(caller.node):
+            if not isinstance(c, ast.Call) or call_tail(c) != g.name:
+                continue
+            hit = _callee_of(repo, caller, c)
+            if hit is None or hit[0].node is not g.node:
+                return None
+            if any(isinstance(a, ast.Starred) for a in c.args) or any(k.arg is None for k in c.keywords):
+                return None
+            a = None
+            for k in c.keywords:
+                if k.arg == pname:
+                    a = k.value
+            i = ps.index(pname) - hit[1]
+            if a is None and 0 <= i < len(c.args):
+                a = c.args[i]
+            if a is None:
+                return None
+            out.append((caller, a))
+    return out or None
+
+
+def _partition_sources(repo, fi, expr, depth=0):
+    """[(side, function, call)]: the ``<line>.partition(<sep>)`` calls whose result (position ``side``: 0 / 1 / 2) a name
+    holds, one entry per binding; an entry is None for a binding that cannot be followed.  Followed through copies,
+    ``x[i]`` of a partition result, and functions / methods of the module that return (a tuple of) such names."""
+    if depth > 6:
+        return [None]
     if isinstance(expr, ast.Subscript) and isinstance(expr.slice, ast.Constant) and isinstance(expr.slice.value, int):
         inner = _deref(fi, expr.value)
         if isinstance(inner, ast.Call) and call_tail(inner) == 'partition' and -3 <= expr.slice.value < 3:
-            return expr.slice.value % 3
-        return None
+            return [(expr.slice.value % 3, fi, inner)]
+        return [None]
     if not isinstance(expr, ast.Name):
-        return None
+        return [None]
     binds = assigned_value(fi.node, expr.id)
     if not binds or expr.id in _all_params(fi):
-        return None
-    sides = set()
+        return [None]
+    out = []
     for st, v, idx in binds:
         if idx is None and isinstance(v, (ast.Name, ast.Subscript)):
-            sides.add(_partition_side(repo, fi, v, depth + 1))
+            out.extend(_partition_sources(repo, fi, v, depth + 1))
         elif isinstance(idx, int) and isinstance(v, ast.Call) and call_tail(v) == 'partition':
-            sides.add(idx)
-        elif (idx is None or isinstance(idx, int)) and isinstance(v, ast.Call) and _module_callee(repo, fi, v) is not None:
-            g = _module_callee(repo, fi, v)
+            out.append((idx, fi, v))
+        elif isinstance(idx, int) and isinstance(v, ast.Tuple) and len(v.elts) > idx and \
+                not any(isinstance(x, ast.Starred) for x in v.elts) and isinstance(v.elts[idx], (ast.Name, ast.Subscript)):
+            out.extend(_partition_sources(repo, fi, v.elts[idx], depth + 1))         # a, b = head, tail
+        elif (idx is None or isinstance(idx, int)) and isinstance(v, ast.Call) and _callee_of(repo, fi, v) is not None:
+            g = _callee_of(repo, fi, v)[0]
             rets = returns_of(g)
             if not rets:
-                sides.add(None)
+                out.append(None)
             for r in rets:
                 rv = _deref(g, r.value) if r.value is not None else None
                 if idx is not None:
                     rv = rv.elts[idx] if isinstance(rv, ast.Tuple) and len(rv.elts) > idx and \
                         not any(isinstance(x, ast.Starred) for x in rv.elts) else None
-                sides.add(_partition_side(repo, g, rv, depth + 1) if rv is not None else None)
+                if rv is None:
+                    out.append(None)
+                else:
+                    out.extend(_partition_sources(repo, g, rv, depth + 1))
         else:
-            sides.add(None)
+            out.append(None)
+    return out
+
+
+def _partition_side(repo, fi, expr, depth=0):
+    """Index (0 / 1 / 2) of the ``<line>.partition(<sep>)`` result a name holds on every binding, else None."""
+    sides = set(s[0] if s is not None else None for s in _partition_sources(repo, fi, expr, depth))
     return sides.pop() if len(sides) == 1 else None
+
+
+# ------------------------------------------------------------------------------------------------ R20.f which line
+# Abstract domain: the order in which an iterable yields the lines of the text (top-down / bottom-up / unknown) and,
+# from that, the end of the text a picked line is searched from ('end' / 'start' / unknown).  Nothing is evaluated.
+_FWD, _REV = 'top-down', 'bottom-up'
+_KEEPS_ORDER = ('list', 'tuple', 'iter', 'enumerate')
+_KEEPS_LINE = ('strip', 'lstrip', 'rstrip', 'expandtabs', 'decode')
+
+
+def _flip(o):
+    return None if o is None else (_REV if o == _FWD else _FWD)
+
+
+def _reordered_in_place(fi, name):
+    """Some ``x.reverse()`` / ``x.sort()`` in the function is applied to the list ``name`` denotes (aliases included)."""
+    me = _canon_name(fi, ast.Name(id=name, ctx=ast.Load()))
+    for n in walk_body(fi.node):
+        if isinstance(n, ast.Call) and isinstance(n.func, ast.Attribute) and n.func.attr in ('reverse', 'sort') and \
+                isinstance(n.func.value, ast.Name) and _canon_name(fi, n.func.value) == me:
+            return True
+    return False
+
+
+def _order(repo, fi, e, depth=0):
+    """Order in which the iterable ``e`` yields the lines of the text (or, for ``range``, the indices): _FWD, _REV, or
+    None when it cannot be told."""
+    if depth > 10 or e is None:
+        return None
+    if isinstance(e, ast.Call):
+        f = e.func
+        if isinstance(f, ast.Name) and not (f.id in _all_params(fi) or assigned_value(fi.node, f.id)):
+            if f.id == 'reversed' and len(e.args) == 1 and not e.keywords:
+                return _flip(_order(repo, fi, e.args[0], depth + 1))
+            if f.id in _KEEPS_ORDER and e.args and not any(isinstance(a, ast.Starred) for a in e.args):
+                return _order(repo, fi, e.args[0], depth + 1)
+            if f.id in ('filter', 'map') and len(e.args) == 2 and not e.keywords:
+                return _order(repo, fi, e.args[1], depth + 1)
+            if f.id == 'range' and not e.keywords and 1 <= len(e.args) <= 3:
+                if len(e.args) < 3:
+                    return _FWD
+                k = _const_index(e.args[2])
+                return None if not k else (_FWD if k > 0 else _REV)
+            v = _inline_expression_call(fi, e)
+            if v is not None:
+                return _order(repo, fi, v, depth + 1)
+            return None
+        if isinstance(f, ast.Attribute):
+            if f.attr in ('splitlines', 'split', 'rsplit'):
+                return _FWD                      # the pieces of a text, in the order of the text
+            if f.attr == 'copy' and not e.args and not e.keywords:
+                return _order(repo, fi, f.value, depth + 1)
+        return None
+    if isinstance(e, ast.Subscript) and isinstance(e.slice, ast.Slice):
+        step = e.slice.step
+        if step is None:
+            return _order(repo, fi, e.value, depth + 1)
+        k = _const_index(step)
+        if not k:
+            return None
+        o = _order(repo, fi, e.value, depth + 1)
+        return o if k > 0 else _flip(o)
+    if isinstance(e, (ast.GeneratorExp, ast.ListComp)) and len(e.generators) == 1 and not e.generators[0].is_async:
+        return _order(repo, fi, e.generators[0].iter, depth + 1)
+    if isinstance(e, ast.Name):
+        name = e.id
+        if _reordered_in_place(fi, name):
+            return None
+        binds = assigned_value(fi.node, name)
+        if name in _all_params(fi):
+            if binds:
+                return None
+            sites = _call_site_args(repo, fi, name)
+            if not sites:
+                return None
+            orders = set(_order(repo, caller, a, depth + 1) for caller, a in sites)
+            return orders.pop() if len(orders) == 1 else None
+        if not binds:
+            return None
+        orders = set()
+        for st, v, idx in binds:
+            if isinstance(st, (ast.Assign, ast.AnnAssign)) and idx is None:
+                orders.add(_order(repo, fi, v, depth + 1))
+            elif isinstance(st, ast.Assign) and isinstance(idx, int) and isinstance(v, ast.Tuple) and len(v.elts) > idx and \
+                    not any(isinstance(x, ast.Starred) for x in v.elts):
+                orders.add(_order(repo, fi, v.elts[idx], depth + 1))
+            else:
+                orders.add(None)
+        return orders.pop() if len(orders) == 1 else None
+    return None
+
+
+def _early_exit(loop):
+    """The loop can be left before its iterable is used up: a ``break`` of its own or a ``return`` in its body."""
+    def rec(nodes, inner):
+        for n in nodes:
+            if isinstance(n, (ast.FunctionDef, ast.AsyncFunctionDef, ast.ClassDef, ast.Lambda)):
+                continue
+            if isinstance(n, ast.Return) or (isinstance(n, ast.Break) and not inner):
+                return True
+            if rec(ast.iter_child_nodes(n), inner or isinstance(n, (ast.For, ast.AsyncFor, ast.While))):
+                return True
+        return False
+    return rec(loop.body, False)
+
+
+def _enclosing_loops(fi, node):
+    out, prev, cur = [], node, fi.mod.parents.get(node)
+    while cur is not None and cur is not fi.node:
+        if isinstance(cur, (ast.For, ast.AsyncFor, ast.While)) and prev not in cur.orelse:
+            out.append(cur)          # (the else clause runs once, after the loop)
+        prev, cur = cur, fi.mod.parents.get(cur)
+    return out
+
+
+def _is_filtered(fi, e, depth=0):
+    """The iterable is the outcome of a search: a comprehension with a condition, ``filter(..)``."""
+    e = _deref(fi, e)
+    if depth > 6:
+        return False
+    if isinstance(e, (ast.GeneratorExp, ast.ListComp)):
+        return any(g.ifs for g in e.generators) or any(_is_filtered(fi, g.iter, depth + 1) for g in e.generators)
+    if isinstance(e, ast.Call) and isinstance(e.func, ast.Name):
+        if e.func.id == 'filter':
+            return True
+        if e.func.id in _KEEPS_ORDER + ('reversed',) and e.args:
+            return _is_filtered(fi, e.args[0], depth + 1)
+    if isinstance(e, ast.Subscript) and isinstance(e.slice, ast.Slice):
+        return _is_filtered(fi, e.value, depth + 1)
+    return False
+
+
+class _Pick(object):
+    """From which end of the text a line is taken: ``end`` True / False / None (cannot be told); ``search``: the line is
+    the outcome of a search (loop, ``next``, filtered sequence) rather than a fixed position."""
+
+    def __init__(self, end, why, search=False):
+        self.end, self.why, self.search = end, why, search
+
+
+def _first_or_last(order, first, what, search):
+    if order is None:
+        return _Pick(None, 'the order of %s cannot be told' % what, search)
+    end = (order == _REV) == first
+    return _Pick(end, 'the %s element of %s, which runs %s' % ('first' if first else 'last', what, order), search)
+
+
+def _index_sign(e, var):
+    """+1 / -1: the sign with which ``var`` enters the affine index expression ``e`` (``i``, ``-i - 1``, ``~i``,
+    ``len(xs) - 1 - i``); None when ``e`` is something else."""
+    def mentions(x):
+        return any(isinstance(n, ast.Name) and n.id == var for n in ast.walk(x))
+    if isinstance(e, ast.Name):
+        return 1 if e.id == var else None
+    if isinstance(e, ast.UnaryOp) and isinstance(e.op, (ast.USub, ast.Invert)):
+        s = _index_sign(e.operand, var)
+        return -s if s else None
+    if isinstance(e, ast.UnaryOp) and isinstance(e.op, ast.UAdd):
+        return _index_sign(e.operand, var)
+    if isinstance(e, ast.BinOp) and isinstance(e.op, (ast.Add, ast.Sub)):
+        l, r = mentions(e.left), mentions(e.right)
+        if l and not r:
+            return _index_sign(e.left, var)
+        if r and not l:
+            s = _index_sign(e.right, var)
+            return None if not s else (s if isinstance(e.op, ast.Add) else -s)
+    return None
+
+
+def _pick_indexed(repo, fi, sub, depth):
+    """``xs[<index walking through a loop>]``."""
+    names = set()
+    for n in ast.walk(sub.slice):
+        if not (isinstance(n, ast.Name) and isinstance(n.ctx, ast.Load)) or not assigned_value(fi.node, n.id):
+            continue
+        par = fi.mod.parents.get(n)
+        if isinstance(par, ast.Call) and call_tail(par) == 'len' and n in par.args:
+            continue                   # len(xs) - 1 - i
+        names.add(n.id)
+    what = short(sub, 40)
+    if len(names) != 1:
+        return _Pick(None, 'the index of %s cannot be followed' % what)
+    var = names.pop()
+    sign = _index_sign(sub.slice, var)
+    so = _order(repo, fi, sub.value, depth + 1)
+    if sign is None or so is None:
+        return _Pick(None, 'the index of %s cannot be followed' % what)
+    binds = assigned_value(fi.node, var)
+    walk, early = None, None
+    fors = [b for b in binds if b[2] == 'iter']
+    if len(binds) == 1 and fors and isinstance(fors[0][0].target, ast.Name):
+        walk, early = _order(repo, fi, fors[0][0].iter, depth + 1), _early_exit(fors[0][0])
+    elif not fors:
+        augs = [st for st, v, idx in binds if isinstance(st, ast.AugAssign)]
+        plain = [st for st, v, idx in binds if not isinstance(st, ast.AugAssign)]
+        loops = set(id(l) for a in augs for l in _enclosing_loops(fi, a)[:1])
+        steps = set()
+        for a in augs:
+            k = _const_index(a.value)
+            steps.add(None if not k or k < 0 or not isinstance(a.op, (ast.Add, ast.Sub)) else isinstance(a.op, ast.Add))
+        if augs and len(loops) == 1 and len(steps) == 1 and None not in steps and \
+                all(isinstance(st, ast.Assign) and not _enclosing_loops(fi, st) for st in plain):
+            loop = _enclosing_loops(fi, augs[0])[0]
+            walk = _FWD if steps.pop() else _REV
+            early = _early_exit(loop) or (isinstance(loop, ast.While) and isinstance(loop.test, ast.BoolOp))
+    if walk is None:
+        return _Pick(None, 'how the index %s of %s moves cannot be told' % (var, what), True)
+    if sign < 0:
+        walk = _flip(walk)
+    if so == _REV:
+        walk = _flip(walk)
+    end = (walk == _REV) == early
+    return _Pick(end, '%s: the index %s walks the text %s and the search %s' %
+                 (what, var, walk, 'stops at the first hit' if early else 'keeps the last hit'), True)
+
+
+def _combine(picks, what):
+    """Several bindings / returns: the outcomes of a search are judged, fixed positions next to them are the fall-back
+    for a text in which the search finds nothing."""
+    main = [p for p in picks if p.search] or picks
+    if not main:
+        return _Pick(None, '%s is never bound' % what)
+    for p in main:
+        if p.end is False:
+            return p
+    for p in main:
+        if p.end is None:
+            return p
+    return main[0]
+
+
+def _pick(repo, fi, e, depth=0):
+    """From which end of the text the line-valued expression ``e`` is taken."""
+    what = short(e, 40)
+    if depth > 10:
+        return _Pick(None, '%s: too deep to follow' % what)
+    if isinstance(e, ast.BoolOp) and isinstance(e.op, ast.Or):
+        return _pick(repo, fi, e.values[0], depth + 1)          # found or <fall-back>
+    if isinstance(e, ast.Name):
+        name = e.id
+        binds = assigned_value(fi.node, name)
+        if name in _all_params(fi):
+            sites = _call_site_args(repo, fi, name) if not binds else None
+            if not sites:
+                return _Pick(None, 'parameter %s of %s cannot be followed to its callers' % (name, fi.qualname))
+            return _combine([_pick(repo, caller, a, depth + 1) for caller, a in sites], name)
+        picks = []
+        for st, v, idx in binds:
+            in_loop = bool(_enclosing_loops(fi, st))
+            if idx == 'iter':
+                o = _order(repo, fi, st.iter, depth + 1)
+                early = _early_exit(st)
+                if o is None:
+                    picks.append(_Pick(None, 'the order of %s cannot be told' % short(st.iter, 40), True))
+                else:
+                    picks.append(_Pick((o == _REV) == early, 'the loop over %s runs %s and %s' % (
+                        short(st.iter, 40), o, 'stops at the first hit' if early else 'keeps the last hit'), True))
+            elif isinstance(st, (ast.Assign, ast.AnnAssign)) and idx is None:
+                p = _pick(repo, fi, v, depth + 1)
+                picks.append(_Pick(p.end, p.why, p.search or in_loop))
+            elif isinstance(st, ast.Assign) and isinstance(idx, int) and isinstance(v, ast.Tuple) and len(v.elts) > idx and \
+                    not any(isinstance(x, ast.Starred) for x in v.elts):
+                p = _pick(repo, fi, v.elts[idx], depth + 1)
+                picks.append(_Pick(p.end, p.why, p.search or in_loop))
+            else:
+                picks.append(_Pick(None, 'the binding %s of %s cannot be followed' % (short(st, 40), name), in_loop))
+        return _combine(picks, name)
+    if isinstance(e, ast.Subscript) and not isinstance(e.slice, ast.Slice):
+        k = _const_index(e.slice)
+        if k is None:
+            return _pick_indexed(repo, fi, e, depth)
+        base = e.value
+        if isinstance(base, ast.Call) and isinstance(base.func, ast.Attribute) and base.func.attr in ('rpartition', 'partition'):
+            # text.rpartition('\n')[2]: what follows the last line break; text.partition('\n')[0]: the first line
+            if base.func.attr == 'rpartition' and k in (2, -1):
+                return _Pick(True, '%s: the text after the last separator' % what)
+            if base.func.attr == 'partition' and k in (0, -3):
+                return _Pick(False, '%s: the text before the first separator' % what)
+            return _Pick(None, '%s: not one line of the text' % what)
+        return _first_or_last(_order(repo, fi, base, depth + 1), k >= 0, short(base, 40), _is_filtered(fi, base))
+    if isinstance(e, ast.Call):
+        f = e.func
+        if isinstance(f, ast.Name) and not (f.id in _all_params(fi) or assigned_value(fi.node, f.id)):
+            if f.id == 'next' and 1 <= len(e.args) <= 2 and not e.keywords:
+                return _first_or_last(_order(repo, fi, e.args[0], depth + 1), True, short(e.args[0], 40), True)
+            if f.id == 'str' and len(e.args) == 1 and not e.keywords:
+                return _pick(repo, fi, e.args[0], depth + 1)
+            v = _inline_expression_call(fi, e)
+            if v is not None:
+                return _pick(repo, fi, v, depth + 1)
+        if isinstance(f, ast.Attribute) and f.attr in _KEEPS_LINE:
+            return _pick(repo, fi, f.value, depth + 1)
+        if isinstance(f, ast.Attribute) and f.attr == 'pop' and len(e.args) <= 1 and not e.keywords:
+            k = _const_index(e.args[0]) if e.args else -1
+            if k is None:
+                return _Pick(None, '%s: position cannot be told' % what)
+            return _first_or_last(_order(repo, fi, f.value, depth + 1), k >= 0, short(f.value, 40), False)
+        hit = _callee_of(repo, fi, e)
+        if hit is not None:
+            g = hit[0]
+            picks = []
+            for r in returns_of(g):
+                if r.value is None or (isinstance(r.value, ast.Constant) and r.value.value is None):
+                    continue
+                p = _pick(repo, g, r.value, depth + 1)
+                picks.append(_Pick(p.end, p.why, p.search or bool(_enclosing_loops(g, r))))
+            return _combine(picks, 'the result of %s' % g.qualname)
+    return _Pick(None, '%s is not a way of taking a line that can be followed' % what)
 
 
 def _parsed_branch(rep, fs):
     flaw = fs.flaw
     td = flaw.func('_ParsedTB.to_dict')
     rep.rule('R20.d', '_ParsedTB.to_dict exports what {#parsed_err} reads; from_string has a normal return and is fed type and message')
-    confirmed = False      # (the parser is never run on sample tracebacks: shapes only)
-    need = {'exc_type', 'exc_msg'}
-    try:
-        td_keys = None
-        for r in returns_of(td):
-            if r.value is None:
-                continue
-            ks = set(_dict_items(td, r.value, 'to_dict'))
-            td_keys = ks if td_keys is None else (td_keys & ks)
-        if td_keys is None:
-            raise AnalysisError('to_dict: no dict return found')
-    except AnalysisError:
-        if not confirmed:
-            raise
-        # the dict is computed (a comprehension over field names, ...): the evaluation below produced it for real inputs
-        td_keys = None
-        rep.ok('R20.d', fkey(td, 'keys'), 'to_dict, evaluated on the parsed sample tracebacks, exports %s' % sorted(need), flaw, td.node)
+    need = {'exc_type', 'exc_msg'}     # (the parser is never run on sample tracebacks: shapes only)
+    td_keys = None
+    for r in returns_of(td):
+        if r.value is None:
+            continue
+        ks = set(_dict_items(td, r.value, 'to_dict'))
+        td_keys = ks if td_keys is None else (td_keys & ks)
+    if td_keys is None:
+        raise AnalysisError('to_dict: no dict return found')
     if td_keys is not None:
         rep.check('R20.d', fkey(td, 'keys'), need <= td_keys, 'to_dict exports %s' % sorted(need) if need <= td_keys else
                   'to_dict no longer exports %s' % sorted(need - td_keys), flaw, td.node)
@@ -1707,7 +2110,7 @@ def _parsed_branch(rep, fs):
         raise AnalysisError('_ParsedTB.__init__ has fewer than two fields')
     cls_name = fs_.params()[0] if fs_.params() else 'cls'
     ctor = [c for c in walk_body(fs_.node) if isinstance(c, ast.Call) and isinstance(c.func, ast.Name) and c.func.id in (cls_name, PARSER_CLASS)]
-    if not ctor and not confirmed:
+    if not ctor:
         raise AnalysisError('from_string: construction of the parsed object not found')
     verdicts = []
     for c in ctor:
@@ -1719,8 +2122,6 @@ def _parsed_branch(rep, fs):
                 verdicts.append(True)
             elif norm(a0) == 'exc_msg' and norm(a1) == 'exc_type':
                 verdicts.append(False)
-            elif confirmed:
-                verdicts.append(True)     # the evaluation on sample tracebacks saw type and message in the right fields
             else:
                 raise AnalysisError('from_string: cannot tell which of %s / %s is the exception type' % (short(a0, 30), short(a1, 30)))
         else:
@@ -1730,10 +2131,54 @@ def _parsed_branch(rep, fs):
               'parsed type and message are passed in constructor order' if ok else
               'from_string does not construct cls(exc_type, exc_msg, ...)', flaw, fs_.node)
     asg = dict((norm(s.targets[0]), norm(s.value)) for s in stmts_of(init.node) if isinstance(s, ast.Assign))
-    ok = (asg.get('self.exc_type') == ps[1] and asg.get('self.exc_msg') == ps[2]) or \
-        (confirmed and asg.get('self.exc_type') != ps[2] and asg.get('self.exc_msg') != ps[1])
+    ok = asg.get('self.exc_type') == ps[1] and asg.get('self.exc_msg') == ps[2]
     rep.check('R20.d', fkey(init, 'fields'), ok, 'constructor stores type and message in the matching fields' if ok else
               'constructor cross-wires exc_type / exc_msg: %r' % asg, flaw, init.node)
+
+
+def _exception_line_from_end(rep, fs):
+    """R20.f: a standard traceback names the exception that ended it on its *last* line (a chained traceback names the
+    earlier ones further up), so the line whose ``partition(':')`` supplies the type and message given to the parsed
+    object has to be looked for from the end of the text: each such line is followed back to the iteration / index /
+    ``next`` / ``pop`` that produced it, and that has to deliver the bottom-most candidate."""
+    flaw, repo = fs.flaw, fs.repo
+    rep.rule('R20.f', 'the line split into exception type and message is searched from the end of the traceback text')
+    fs_ = flaw.func('_ParsedTB.from_string')
+    init = flaw.func('_ParsedTB.__init__')
+    ps = init.params()
+    if len(ps) < 3:
+        raise AnalysisError('_ParsedTB.__init__ has fewer than two fields')
+    cls_name = fs_.params()[0] if fs_.params() else 'cls'
+    ctor = [c for c in walk_body(fs_.node) if isinstance(c, ast.Call) and isinstance(c.func, ast.Name) and c.func.id in (cls_name, PARSER_CLASS)]
+    if not ctor:
+        raise AnalysisError('from_string: construction of the parsed object not found')
+    for n, c in enumerate(ctor):
+        sites = []
+        for a in (argn(c, ps[1], 0), argn(c, ps[2], 1)):
+            srcs = _partition_sources(repo, fs_, a) if a is not None else [None]
+            if not srcs or None in srcs:
+                raise AnalysisError('from_string: %s cannot be followed back to the partition(..) of a line of the text'
+                                    % (short(a, 30) if a is not None else 'the type / message argument'))
+            for side, g, call in srcs:
+                if not any(call is c_ for g_, c_ in sites):
+                    sites.append((g, call))
+        picks = []
+        for g, call in sites:
+            if not isinstance(call.func, ast.Attribute):
+                raise AnalysisError('%s: %s is not a method call on a line' % (g.qualname, short(call, 40)))
+            p = _pick(repo, g, call.func.value)
+            # a split made inside a loop belongs to the search; one made at a fixed position next to it is the
+            # fall-back for a text in which the search finds nothing
+            picks.append(_Pick(p.end, '%s in %s: %s' % (short(call, 40), g.qualname, p.why),
+                               p.search or bool(_enclosing_loops(g, call))))
+        p = _combine(picks, 'the exception line')
+        if p.end is None:
+            raise AnalysisError('from_string: cannot tell from which end of the text the line split into type and message '
+                                'is taken (%s)' % p.why)
+        rep.check('R20.f', fkey(fs_, 'exception line' + ('' if n == 0 else ' #%d' % (n + 1))), p.end,
+                  'the exception line is the bottom-most candidate (%s)' % p.why if p.end else
+                  'the line split into type and message is searched from the top of the text, so a chained traceback is '
+                  'reported with its first exception, not the one on its last line (%s)' % p.why, flaw, c)
 
 
 # ------------------------------------------------------------------------------------------------ R20.e the launcher
@@ -1911,7 +2356,8 @@ def run(rep):
     repo = rep.repo
     rep.decide('R20.a names resolve; R20.b parser cannot prevent the page, route/template/resource agreement; '
                'R20.c template auto-escapes every reference; R20.d parsed branch reachable and fed; '
-               'R20.e the launcher hands over the collected text and file list')
+               'R20.e the launcher hands over the collected text and file list; '
+               'R20.f the exception line is searched from the end of the text')
     rep.decline('totality over non-text inputs (bytes/None through ashes); coverage of traceback grammars')
     rep.assume('ashes 19.2.0 filter semantics as read from the pinned source (apply_filters)')
     fs = _Failsafe(repo)
@@ -1926,4 +2372,5 @@ def run(rep):
     _group(rep, _shown_is_given, rep, fs)
     _group(rep, _template_escapes, rep, fs)
     _group(rep, _parsed_branch, rep, fs)
+    _group(rep, _exception_line_from_end, rep, fs)
     _group(rep, _launcher_handover, rep, fs)
